@@ -99,7 +99,7 @@ type SiteInfo struct {
 var S *Sched
 
 func New(strategy Strategy, dec *Stream, maporder *Stream) *Sched {
-	return &Sched{strategy: strategy, dec: dec, maporder: maporder, StepLimit: 50_000_000, pairs: map[uint64]struct{}{}}
+	return &Sched{strategy: strategy, dec: dec, maporder: maporder, StepLimit: 12_000_000, pairs: map[uint64]struct{}{}}
 }
 
 func (s *Sched) removeParked(t *Task) {
@@ -248,6 +248,9 @@ func (s *Sched) exit(t *Task) {
 	if s.stopping {
 		return
 	}
+	// quiescence first: a goroutine woken by this task's last action must have parked before the
+	// next holder is chosen, otherwise the choice would depend on a real-time race
+	synctest.Wait()
 	s.mu.Lock()
 	if s.stopping {
 		s.mu.Unlock()
